@@ -1018,3 +1018,109 @@ Proof.
   destruct e as [[[i|] [j|]] l']; cbn [mer_decode obind] in E; try discriminate.
   destruct l' as [k|]; [rewrite mer_edge_text_typed|rewrite mer_edge_text_plain]; discriminate.
 Qed.
+
+(* ---------------------------------------------------- the whole chart *)
+Lemma oseq_length {X} : forall (l : list (option X)) l', oseq l = Some l' -> map Some l' = l.
+Proof.
+  induction l as [|[x|] l IH]; intros l' H; cbn [oseq] in H.
+  - injection H as <-. reflexivity.
+  - destruct (oseq l) as [r|] eqn:E; [|discriminate]. cbn in H. injection H as <-. cbn [map]. f_equal. now apply IH.
+  - discriminate.
+Qed.
+
+Lemma oseq_defined {X} : forall (l : list (option X)), (forall x, In x l -> x <> None) -> exists l', oseq l = Some l'.
+Proof.
+  induction l as [|[x|] l IH]; intros H.
+  - now exists [].
+  - destruct IH as [r E]; [intros y Hy; apply H; now right|]. exists (x :: r). cbn [oseq]. now rewrite E.
+  - exfalso. apply (H None); [now left|reflexivity].
+Qed.
+
+Lemma mer_node_line_default d : mer_node_line None d = mer_node_text d.
+Proof. destruct d as [[i nm] [|]]; reflexivity. Qed.
+
+Lemma edge_format_plain i j k fn tn :
+  format_with MERMAID_DEFAULT_EDGE_TEMPLATE (edge_env i j k fn tn) = Some (dec i ++ S_arrow ++ dec j).
+Proof. unfold format_with. rewrite edge_template_tokens. cbn. now rewrite app_nil_r. Qed.
+
+Lemma edge_format_typed i j k fn tn :
+  format_with MERMAID_DEFAULT_EDGE_TEMPLATE_TYPED (edge_env i j (Some k) fn tn)
+  = Some (dec i ++ S_tarrow1 ++ k ++ S_tarrow2 ++ dec j).
+Proof. unfold format_with. rewrite typed_edge_template_tokens. cbn. now rewrite app_nil_r. Qed.
+
+Lemma mer_edge_line_default u m pn : mer_edge_line None u m pn = mer_edge_text (mer_edge u m pn).
+Proof.
+  unfold mer_edge_line, mer_edge, mer_edge_text.
+  destruct (klookup (key u (fst pn)) m) as [i|]; [|reflexivity].
+  destruct (klookup (key u (snd pn)) m) as [j|]; [|reflexivity].
+  destruct (mer_label (rkind (snd pn))) as [k|].
+  - now rewrite !edge_format_typed.
+  - now rewrite !edge_format_plain.
+Qed.
+
+Lemma mer_node_text_defined d : mer_node_text d <> None.
+Proof. destruct d as [[i nm] [|]]; [discriminate|]. rewrite mer_node_text_plain. discriminate. Qed.
+
+Lemma mer_edge_lines_default o s : mo_edge_templ o = None ->
+  mer_edge_lines o s = map mer_edge_text (mer_edges (mo_unique o) (mo_add_root o) s).
+Proof.
+  intros E. unfold mer_edge_lines, mer_edges. rewrite E, map_flat_map'. apply flat_map_ext_in. intros pn _.
+  destruct (negb (mo_add_root o) && same_node (fst pn) s); [reflexivity|]. cbn [map]. now rewrite mer_edge_line_default.
+Qed.
+
+Lemma length_flat_map_ext {X Y Z} (g : X -> list Y) (h : X -> list Z) (l : list X) :
+  (forall x, length (g x) = length (h x)) -> length (flat_map g l) = length (flat_map h l).
+Proof. intros H. induction l as [|x l IH]; cbn; [reflexivity|]. now rewrite !app_length, H, IH. Qed.
+
+Definition mer_tail (o : mopts) : list text := if mo_markdown o then [L_md_close] else [].
+
+(* default mappers: the export never raises, and the chart is the header for
+   the options, one line per node definition, the edge heading, one line per
+   edge and the closing fence *)
+Lemma mer_chart_default o s : mo_node_templ o = None -> mo_edge_templ o = None ->
+  exists N E,
+    mer_chart o s = Some (mer_head o s ++ N ++ [[]; L_edges] ++ E ++ mer_tail o) /\
+    map Some N = map mer_node_text (mer_nodes (mo_unique o) (mo_add_root o) s) /\
+    map Some E = map mer_edge_text (mer_edges (mo_unique o) (mo_add_root o) s).
+Proof.
+  intros En Ee. unfold mer_chart. rewrite (mer_edge_lines_default o s Ee).
+  unfold mer_node_lines. rewrite En.
+  rewrite (map_ext _ _ mer_node_line_default).
+  destruct (oseq_defined (map mer_node_text (mer_nodes (mo_unique o) (mo_add_root o) s))) as [N HN].
+  { intros x Hx. apply in_map_iff in Hx. destruct Hx as [d [<- _]]. apply mer_node_text_defined. }
+  destruct (oseq_defined (map mer_edge_text (mer_edges (mo_unique o) (mo_add_root o) s))) as [E HE].
+  { intros x Hx. apply in_map_iff in Hx. destruct Hx as [e [<- He]]. now apply mer_edge_text_defined in He. }
+  exists N, E. rewrite HN, HE. split; [reflexivity|]. split; now apply oseq_length.
+Qed.
+
+(* any templates: when the export does not raise, the chart has exactly one
+   node line per distinct key and one edge line per exported edge *)
+Lemma mer_chart_shape o s ls : mer_chart o s = Some ls ->
+  exists N E,
+    ls = mer_head o s ++ N ++ [[]; L_edges] ++ E ++ mer_tail o /\
+    length N = length (first_occ (map (key (mo_unique o)) (export (mo_add_root o) s))) /\
+    length E = length (dot_edges (mo_unique o) (mo_add_root o) s).
+Proof.
+  unfold mer_chart. intros H.
+  destruct (oseq (mer_node_lines o s)) as [N|] eqn:HN; [|discriminate].
+  destruct (oseq (mer_edge_lines o s)) as [E|] eqn:HE; [|discriminate].
+  injection H as <-. exists N, E. split; [reflexivity|].
+  apply oseq_length in HN, HE. split.
+  - assert (LN : length N = length (mer_node_lines o s)) by (rewrite <- HN; now rewrite map_length).
+    transitivity (length (mer_node_lines o s)); [exact LN|]. unfold mer_node_lines.
+    rewrite map_length. rewrite <- (map_length (fun d : mnode => fst (fst d))), mer_nodes_indices. apply seq_length.
+  - assert (LE : length E = length (mer_edge_lines o s)) by (rewrite <- HE; now rewrite map_length).
+    transitivity (length (mer_edge_lines o s)); [exact LE|].
+    unfold mer_edge_lines, dot_edges. apply length_flat_map_ext.
+    intros pn. destruct (negb (mo_add_root o) && same_node (fst pn) s); reflexivity.
+Qed.
+
+(* edge counts *)
+Lemma dot_edges_counts u s : NoDup (ids_t s) ->
+  length (dot_edges u true s) = length (pre_f (rch s)) /\
+  length (dot_edges u true s) = length (rch s) + length (dot_edges u false s).
+Proof.
+  intros H. split.
+  - rewrite dot_edges_with, map_length. apply desc_p_length.
+  - rewrite (Permutation_length (dot_edges_exclusion_perm u s H)), app_length, map_length. reflexivity.
+Qed.
